@@ -63,7 +63,8 @@ CLAIMS = {
              "abstract evaluation of the ignore_cardinality argument for every read mode plus RAII read-mode flags "
              "alive around iterateArguments, every call of ICardinality::gotValue() in the library control-dependent "
              "on that information (the parameter in assignValue, a member set from it in the list loops of the "
-             "multi-value destinations), canonical key for constraint matching, value constraints relate only values that "
+             "multi-value destinations), canonical key for constraint matching, every successful assign() makes hasValue() "
+             "true (mandatory check), value constraints relate only values that "
              "were given (compareValue() reachable only through hasValue()-true edges of both arguments). The general statement is not "
              "decidable statically and is not claimed.",
         note="trusts clang AST/CFG; boost::lexical_cast converts every representable value; interaction of arbitrary "
@@ -82,7 +83,9 @@ CLAIMS = {
              "detail::ArgListIterator is decided by an inductive four-case invariant relating word index and "
              "character position to argc and the symbolic per-word lengths (constructor establishes it, operator++ "
              "preserves it from every case, nested step by assume-guarantee), with a bounds obligation on every "
-             "argv[ i] and word[ j] for all argument vectors. Termination is NOT decided.",
+             "argv[ i] and word[ j] for all argument vectors. Termination is decided for the one kind of loop whose bound is "
+             "outside the program: a loop driven by a stream read must end at the first failed read (end of file or "
+             "error). Termination of the other loops is NOT decided.",
         note="trusted base: clang front end, extractor, cv/lin.py + cv/bounds.py and its models of "
              "strlen/strcpy/new[]/std::vector/std::string; argc >= 1, argv words are C strings shorter than 2 GiB, "
              "argv[argc] is null",
@@ -132,7 +135,8 @@ CLAIMS = {
              "difference is reported with the shortest character-class sequence leading to it; argv capacity by Engine C; "
              "a who-may-write rule shows that the pairing state of the handler (the argument whose value list is open) "
              "is written by no function that runs once per chunk of words, so a value list continues across file "
-             "lines / environment / argv exactly as across argv words. Other quoting disciplines and "
+             "lines / environment / argv exactly as across argv words; the line loop of the argument file runs for every "
+             "line the read delivers (incl. an unterminated last line). Other quoting disciplines and "
              "value equality between sources are not decided.",
         note="trusts clang AST/CFG; std::string append/clear semantics; round trip claimed for backslash escaping only",
         also=("engine A (cfg.py)", "engine C (lin.py, bounds.py)"),
